@@ -4,6 +4,7 @@ import (
 	"bytes"
 	"context"
 	"crypto/sha512"
+	"encoding/hex"
 	"fmt"
 	"math"
 
@@ -294,6 +295,23 @@ func (w *World) BuildTx(op TxOp, v TxView, seq int) (*BuiltTx, error) {
 	case "wrongkey":
 		st.Signature.PublicKey = w.Signer(op.From + 1).Public()
 		bt.Authentic = st.Signature.PublicKey.Equal(signer.Public())
+	case "smallorder":
+		// The stated signer is an Edwards point of small order and the signature is the fixed pair
+		// (R = base point, S = 1): a verifier that tolerates small-order public keys accepts it for
+		// every message and context, with no private key involved. The transaction is sequenced
+		// for that key's account (nonce as recorded, no fee) so that it would take effect.
+		var pk signature.PublicKey
+		raw, _ := hex.DecodeString(smallOrderPoints[op.MutA%len(smallOrderPoints)])
+		if err := pk.UnmarshalBinary(raw); err == nil {
+			tx.Nonce = v.Account(staking.NewAddress(pk)).General.Nonce
+			tx.Fee = &transaction.Fee{Gas: tx.Fee.Gas}
+			st.Blob = cbor.Marshal(tx)
+			st.Signature.PublicKey = pk
+			sig, _ := hex.DecodeString("5866666666666666666666666666666666666666666666666666666666666666" + "0100000000000000000000000000000000000000000000000000000000000000")
+			copy(st.Signature.Signature[:], sig)
+			bt.Signer, bt.Nonce, bt.Fee = pk, tx.Nonce, 0
+		}
+		bt.Authentic = false
 	case "otherchain", "ctx", "nochain", "truncctx":
 		// Re-sign outside the oasis signature package with a different domain separation.
 		ctxs := map[string]string{
@@ -329,6 +347,18 @@ func (w *World) BuildTx(op TxOp, v TxView, seq int) (*BuiltTx, error) {
 	}
 	_ = context.Background()
 	return bt, nil
+}
+
+// smallOrderPoints are the canonical encodings of the eight Edwards points of order 1, 2, 4, 8.
+var smallOrderPoints = []string{
+	"0100000000000000000000000000000000000000000000000000000000000000",
+	"ecffffffffffffffffffffffffffffffffffffffffffffffffffffffffffff7f",
+	"0000000000000000000000000000000000000000000000000000000000000000",
+	"0000000000000000000000000000000000000000000000000000000000000080",
+	"c7176a703d4dd84fba3c0b760d10670f2a2053fa2c39ccc64ec7fd7792ac037a",
+	"c7176a703d4dd84fba3c0b760d10670f2a2053fa2c39ccc64ec7fd7792ac03fa",
+	"26e8958fc2b227b045c3f489f2ef98f0d5dfac05d3c63339b13802886d53fc05",
+	"26e8958fc2b227b045c3f489f2ef98f0d5dfac05d3c63339b13802886d53fc85",
 }
 
 // rawSign signs SHA-512/256(context || message) with the signer's raw key, outside the oasis
